@@ -43,10 +43,11 @@ def gen(ctx):
         text, notes = translate.gen_controlling(
             open(os.path.join(r, "trim", "interior", "plain", "controlling.py")).read(),
             open(os.path.join(r, "aid", "blending.py")).read(),
-            open(os.path.join(r, "aid", "navigating.py")).read())
+            open(os.path.join(r, "aid", "navigating.py")).read(),
+            open(os.path.join(r, "base", "doing.py")).read())
         ntext, _ = translate.gen_navigating(open(os.path.join(r, "aid", "navigating.py")).read())
     except (translate.Untranslatable, SyntaxError, OSError) as ex:
-        ctx.tie_broken("translator", "controlling.py / blending.py / navigating.py", "%s: %s" % (type(ex).__name__, ex))
+        ctx.tie_broken("translator", "controlling.py / blending.py / navigating.py / doing.py", "%s: %s" % (type(ex).__name__, ex))
         return False
     ctx.write_gen("Controlling.v", text)
     ctx.write_gen("Navigating.v", ntext)
@@ -71,6 +72,7 @@ class Rig(object):
         self.inp = self.store.fetch("state.inp")
         self.rate = self.store.fetch("state.rate")
         self.rsp = self.store.fetch("goal.rsp")
+        self.last = 0.0
 
     def state(self):
         c = self.c
@@ -80,11 +82,22 @@ class Rig(object):
         """returns (lapse seen by the controller, state after) ; exceptions propagate"""
         if dt is not None:
             if isinstance(dt, tuple):
-                self.store.changeStamp(dt[1])
+                if dt[0] == "none":
+                    self.store.stamp = None
+                elif dt[0] == "jump":
+                    self.store.changeStamp(self.last + dt[1])
+                else:
+                    self.store.changeStamp(dt[1])
+            elif self.store.stamp is None:      # harness: leave the None stamp by an absolute stamp
+                self.store.changeStamp(self.last + dt)
             else:
                 self.store.advanceStamp(dt)
+        if self.store.stamp is not None:
+            self.last = self.store.stamp
         self.inp.value, self.rate.value, self.rsp.value = inp, rate, rsp
+        self.stamps = [self.c.stamp, self.store.stamp]
         self.c.action()
+        self.stamps.append(self.c.stamp)
         return self.c.lapse, self.state()
 
 
@@ -109,6 +122,8 @@ def same(a, b):
 
 def enc(x):
     """float/int -> (n, d): d > 0 finite n/d ; d = 0: n = 0 NaN, n > 0 +inf, n < 0 -inf"""
+    if x is None:
+        return (0, -1)
     if isinstance(x, bool):
         return (1, 1) if x else (0, 1)
     if isinstance(x, float) and math.isnan(x):
@@ -189,7 +204,7 @@ def grid_value(ctx, nonfinite, span=1200):
 
 HEADER = """From Coq Require Import ZArith QArith List Bool.
 Import ListNotations.
-Require Import V.Lib.C43_PyPrelude V.Lib.C46_XVal V.gen.Controlling V.C46.Model.
+Require Import V.Lib.C43_PyPrelude V.Lib.C46_XVal V.gen.Controlling V.C46.Model V.C46.Lapse.
 Definition c46_x (n d : Z) : xv :=
   if (0 <? d)%Z then XFin (Qmake n (Z.to_pos d))
   else if (n =? 0)%Z then XNaN else if (0 <? n)%Z then XPInf else XNInf.
@@ -201,14 +216,24 @@ Definition c46_same (a b : xv) : bool :=
   end.
 Fixpoint c46_xs (l : list Z) : list xv :=
   match l with n :: d :: r => c46_x n d :: c46_xs r | _ => [] end.
+Definition c46_o (n d : Z) : option xv := if (d <? 0)%Z then None else Some (c46_x n d).
+Definition c46_osame (a b : option xv) : bool :=
+  match a, b with None, None => true | Some x, Some y => c46_same x y | _, _ => false end.
 Definition c46_chk (row : list Z) : bool :=
-  match c46_xs row with
+  match row with
+  | n0 :: d0 :: n1 :: d1 :: n2 :: d2 :: rest =>
+  match c46_xs rest with
   | [drsp; wrap; calc; ger; gff; gpe; gde; gie; esmax; esmin; ovmax; ovmin;
      el; prsp; e; er; es; out;  lapse; inp; rate; rsp;  el'; prsp'; e'; er'; es'; out'] =>
     let P := mkParm drsp wrap (c46_same calc (XFin 1)) ger gff gpe gde gie esmax esmin ovmax ovmin in
-    let s := step xnum_exact P (mkSt el prsp e er es out) (mkInp lapse inp rate rsp) in
+    let c := full_step xnum_exact P (mkC (c46_o n0 d0) el (mkSt el prsp e er es out))
+                       (mkU (c46_o n1 d1) inp rate rsp) in
+    let s := c_st c in
+    c46_osame (c_stamp c) (c46_o n2 d2) && c46_same (c_lapse c) lapse &&
     c46_same (s_elapsed s) el' && c46_same (s_prsp s) prsp' && c46_same (s_e s) e' &&
     c46_same (s_er s) er' && c46_same (s_es s) es' && c46_same (s_out s) out'
+  | _ => false
+  end
   | _ => false
   end.
 """
@@ -261,6 +286,10 @@ def run(ctx):
                 dt = -0.5
             elif r < 0.18 and nonfinite:
                 dt = ("set", INF)
+            elif r < 0.22:
+                dt = ("none",)                  # store stamp None -> TypeError path of updateLapse
+            elif r < 0.30:
+                dt = ("jump", ctx.rng.choice([-3.0, -0.5, 0.0, 0.25, 1.0, 2.0]))   # absolute re-stamp, fwd/backward
             else:
                 dt = ctx.rng.choice([0.125, 0.25, 0.5, 1.0, 2.0])
             if ctx.rng.random() < 0.35:
@@ -291,7 +320,7 @@ def run(ctx):
             ctx.case({"parms": parms, "pre": pre, "in": [lapse, inp, rate, hold_rsp], "post": post},
                      nontrivial=(lapse > 0) and (nf or clamp or reset or wrapped), kind="exact:" + kind)
             row = []
-            for v in vals:
+            for v in list(rig.stamps) + vals:
                 row += list(enc(v))
             rows.append(row)
             metas.append((parms, pre, [lapse, inp, rate, hold_rsp], post))
@@ -346,7 +375,7 @@ def run(ctx):
 
     if ok and rows:
         try:
-            bad = harness.flat_cases(ctx, HEADER, "c46_chk", rows, 56, shard=300)
+            bad = harness.flat_cases(ctx, HEADER, "c46_chk", rows, 62, shard=300)
         except RuntimeError as ex:
             bad = []
             ctx.tie_broken("correspondence", "coq evaluation of generated Controlling.v failed", str(ex))
